@@ -456,6 +456,9 @@ var complementOp = map[token.Token]token.Token{token.LSS: token.GEQ, token.GEQ: 
 // `if err := f(); err != nil` idiom).
 func (g *Graph) GErrNil(isNil bool, callPat string, checks ...HoleCheck) Guard {
 	return GFunc(func(ft Fact) bool {
+		if c := g.okFlagCall(ft, isNil); c != nil {
+			return g.Fn.MatchWith(callPat, c, checks...) != nil
+		}
 		x, y, eq, ok := EqParts(ft)
 		if !ok || eq != isNil {
 			return false
